@@ -414,8 +414,10 @@ class Gen:
                     d['legacy'] = True
                 self.add(d, 'F4c', 'accept', ['default-boundary', form, 'W=%d' % W])
         # names that coincide with names the macro uses internally (hygiene): default constants, field names
-        for k, cname in enumerate(['MASK', 'CLEAR_MASK', 'ZERO', 'RAW', 'DEFAULT', 'DEFAULT_RAW_VALUE', 'VALUE', 'ONE', 'BITS', 'MAX']):
-            W = [24, 8, 100, 32, 7, 65, 16, 48, 128, 12][k]
+        cnames = ['MASK', 'CLEAR_MASK', 'ZERO', 'RAW', 'DEFAULT', 'DEFAULT_RAW_VALUE', 'VALUE', 'ONE', 'BITS', 'MAX']
+        for k, cname in enumerate(cnames + cnames):
+            # every name once over an arbitrary-int base and once over a native base
+            W = [24, 7, 100, 12, 48, 65, 9, 33, 127, 17][k] if k < len(cnames) else [8, 16, 32, 64, 128][k % 5]
             v = rng.getrandbits(W) & ~1
             d = {'kind': 'bitfield', 'name': self.name('S'), 'base': W, 'module': True,
                  'default': {'form': 'const', 'name': cname, 'value': v},
